@@ -271,6 +271,7 @@ def compare_fmt_sites(cases, res):
 
 def compare(cases, outs, res, reparse, streams=(0, 1, 2, 3)):
     lines, idx = [], []
+    revs = {}
     for i, c in enumerate(cases):
         if outs[i] is None:
             res.count('model:skipped-oracle-failure')
@@ -284,11 +285,32 @@ def compare(cases, outs, res, reparse, streams=(0, 1, 2, 3)):
             if j in streams:
                 lines.append(l)
                 idx.append((i, j))
+        if 1 in streams:
+            # stream serializer-cache-flag: the REAL event stream of the template through the three Lean
+            # serializers (loop with cache + flag, loop without cache, escaping by enclosing elements)
+            try:
+                revs[i] = real_events(c)
+            except Exception as e:
+                revs[i] = Atom('raised:' + type(e).__name__)
+            if isinstance(revs[i], list) and all(e[0] != 'OTHER' for e in revs[i]):
+                lines.append(proto.line(A('C01'), A('emit3'), A(c['method']), B(c['strip']), revs[i]))
+                idx.append((i, 4))
     if 0 in streams:
         compare_fmt_sites([c for i, c in enumerate(cases) if outs[i] is not None], res)
     answers = proto.run_lines(lines)
     for (i, j), ans in zip(idx, answers):
-        stream = ['render-text', 'template-events', 'reader-vs-independent-parser', 'lean-spec-vs-generator-spec'][j]
+        stream = ['render-text', 'template-events', 'reader-vs-independent-parser', 'lean-spec-vs-generator-spec',
+                  'serializer-cache-flag'][j]
+        if j == 4:
+            model = proto.dec(ans)
+            res.streams[stream] = res.streams.get(stream, 0) + 1
+            if isinstance(model[2], Atom):
+                res.count('serializer-cache-flag:stream-outside-rawLeaf')
+                model = model[:2]
+            real = [outs[i]] * len(model)
+            if model != real:
+                res.disagreements.append({'stream': stream, 'case': cases[i], 'model': repr(model)[:900], 'real': repr(outs[i])[:300]})
+            continue
         if ans == 'unmodelled':
             res.count('model:unmodelled')
             continue
@@ -319,10 +341,7 @@ def compare(cases, outs, res, reparse, streams=(0, 1, 2, 3)):
             real = G.coalesce(reparse(outs[i], cases[i]['method']))
             model = reader_tokens(model) if isinstance(model, list) else model
         else:
-            try:
-                real = real_events(cases[i])
-            except Exception as e:
-                real = Atom('raised:' + type(e).__name__)
+            real = revs[i]
         res.streams[stream] = res.streams.get(stream, 0) + 1
         if model != real:
             res.disagreements.append({'stream': stream, 'case': cases[i], 'model': repr(model)[:600], 'real': repr(real)[:600]})
